@@ -5,15 +5,10 @@
   for an ARBITRARY device (`World`): any function from requests to lists of raw mailbox messages, any mailbox sizes,
   any stale messages, both build profiles (`Mode`).
 
-  The full statement `coe_total` (every entry point returns a value or an error, never panics) is FALSE of the
-  current code. Panic sites reachable from device-supplied bytes each have a `_counterexample` theorem (the
-  witness is replayed on the real code by harness/src/bin/c16.rs in every run) and `coe_total_partial` is proved
-  under hypotheses that exclude exactly these reply classes:
-    (P1 `assert_ne!(service, Emergency)` was repaired by fix-c16-emergency: `coe_total_emergency_fixed`)
-    (P2 `header.length - 3` (u16) was repaired by fix-c16-segment-length: `coe_total_segment_length_fixed`)
-    P3/P4 c16/sdo-info-length        `length as usize - 8` and `response[..length]`: an SDO-info reply whose length field
-                                     is < 8 or exceeds the data present (all builds)
-  Likewise the loops are only bounded by the device's good will: `info_terminates_counterexample` /
+  `coe_total` (every entry point returns a value or an error, never panics) holds unconditionally since the repairs
+  fix-c16-emergency, fix-c16-segment-length, fix-c16-sdo-info-length; the former witnesses of the four panic sites are
+  kept as `coe_total_*_fixed` theorems (they are errors now) and in the harness corpus.
+  The loops are still only bounded by the device's good will: `info_terminates_counterexample` /
   `segments_terminate_counterexample` (c16/sdo-info-endless, c16/segment-endless).
 -/
 import EcModel.Lemmas.CoeEndless
@@ -24,68 +19,51 @@ open Ec Ec.Coe Ec.Gen.Coe
 
 /-! ### coe_total -/
 
-/-- **coe_total (partial).** For EVERY device in the case of `sdo_read`, `sdo_read_array`, `sdo_read_expedited`,
-    `sdo_write`, `sdo_write_array`, and for every device that never sends a reply of class P3/P4 in the case of the SDO
-    information entry points — every mailbox size, every stale queue, every counter value, both build profiles:
-    each entry point ends with a value or an error — never a panic (and the model's `outOfFuel` is an error value, see
-    `segments_terminate_*` for what it stands for). -/
-theorem coe_total_partial {σ : Type} (w : World σ) (cfg : Cfg) (P : DevInv σ) (hw : WGood P w) (s : St σ)
-    (hs : QGood P s) :
-    ((∀ fuel bufLen index access, Res.isPanic (sdoRead w cfg fuel bufLen index access s).1 = false) ∧
-      (∀ (α : Type) (T : Dest α) fuel maxEntries index,
-        Res.isPanic (sdoReadArray w cfg fuel T maxEntries index s).1 = false)) ∧
-    ((∀ index access, Res.isPanic (sdoReadExpedited w cfg index access s).1 = false) ∧
-      (∀ index access value, Res.isPanic (sdoWrite w cfg index access value s).1 = false) ∧
-      (∀ index values, Res.isPanic (sdoWriteArray w cfg index values s).1 = false)) ∧
-    ((∀ m, P.msg m → InfoLenOk cfg m) →
-      (∀ listType, Res.isPanic (sdoInfoList w cfg listType s).1 = false) ∧
-      Res.isPanic (sdoInfoQuantities w cfg s).1 = false) := by
-  refine ⟨⟨?_, ?_⟩, ⟨?_, ?_, ?_⟩, fun hP => ⟨?_, ?_⟩⟩
+/-- The trivial invariant: any device whatsoever. -/
+def anyDevice (σ : Type) : DevInv σ := { msg := fun _ => True, dev := fun _ => True }
+
+/-- **coe_total.** For EVERY device (any function from requests to lists of raw mailbox byte strings), every mailbox
+    size, every stale queue, every counter value, both build profiles: each of the seven entry points ends with a value
+    or an error — never a panic. (The model's `outOfFuel` is an error value; `segments_terminate` shows when it cannot
+    occur.) Unconditional since fix-c16-emergency, fix-c16-segment-length and fix-c16-sdo-info-length. -/
+theorem coe_total {σ : Type} (w : World σ) (cfg : Cfg) (s : St σ) :
+    (∀ fuel bufLen index access, Res.isPanic (sdoRead w cfg fuel bufLen index access s).1 = false) ∧
+    (∀ (α : Type) (T : Dest α) fuel maxEntries index,
+      Res.isPanic (sdoReadArray w cfg fuel T maxEntries index s).1 = false) ∧
+    (∀ index access, Res.isPanic (sdoReadExpedited w cfg index access s).1 = false) ∧
+    (∀ index access value, Res.isPanic (sdoWrite w cfg index access value s).1 = false) ∧
+    (∀ index values, Res.isPanic (sdoWriteArray w cfg index values s).1 = false) ∧
+    (∀ listType, Res.isPanic (sdoInfoList w cfg listType s).1 = false) ∧
+    Res.isPanic (sdoInfoQuantities w cfg s).1 = false := by
+  have hw : WGood (anyDevice σ) w := fun _ _ _ => ⟨trivial, fun _ _ => trivial⟩
+  have hs : QGood (anyDevice σ) s := ⟨trivial, fun _ _ => trivial⟩
+  refine ⟨?_, ?_, ?_, ?_, ?_, ?_, ?_⟩
   · intro fuel bufLen index access
-    exact (sdoRead_safe w cfg P hw fuel bufLen index access s hs).1
+    exact (sdoRead_safe w cfg _ hw fuel bufLen index access s hs).1
   · intro α T fuel maxEntries index
-    exact (sdoReadArray_safe w cfg P hw fuel T maxEntries index s hs).1
+    exact (sdoReadArray_safe w cfg _ hw fuel T maxEntries index s hs).1
   · intro index access
-    exact (sdoReadExpedited_safe w cfg P hw index access s hs).1
+    exact (sdoReadExpedited_safe w cfg _ hw index access s hs).1
   · intro index access value
-    exact (sdoWrite_safe w cfg P hw index access value s hs).1
+    exact (sdoWrite_safe w cfg _ hw index access value s hs).1
   · intro index values
-    exact (sdoWriteArray_safe w cfg P hw index values s hs).1
+    exact (sdoWriteArray_safe w cfg _ hw index values s hs).1
   · intro listType
-    exact sdoInfoList_noPanic w cfg P hP hw listType s hs
-  · exact sdoInfoQuantities_noPanic w cfg P hP hw s hs
+    exact sdoInfoList_noPanic w cfg listType s
+  · exact sdoInfoQuantities_noPanic w cfg s
 
-/-- The hostile device of the harness: a script of arbitrary byte strings, all of them outside the excluded class. -/
-def scriptInv (Pm : List Nat → Prop) : DevInv (List (List (List Nat))) :=
-  { msg := Pm, dev := fun sc => ∀ e ∈ sc, ∀ m ∈ e, Pm m }
+/-- **coe_total, scripted device.** For EVERY script of reply byte strings and every list of stale messages:
+    `sdo_read` of any destination size and `sdo_info_object_description_list` return a value or an error. -/
+theorem coe_total_script (cfg : Cfg) (script : List (List (List Nat))) (stale : List (List Nat)) (ctr : Nat)
+    (fuel bufLen index listType : Nat) (access : SubIndex) :
+    ((∃ v, (sdoRead scriptWorld cfg fuel bufLen index access (St.init ctr script stale)).1 = .ok v) ∨
+     (∃ e, (sdoRead scriptWorld cfg fuel bufLen index access (St.init ctr script stale)).1 = .err e)) ∧
+    ((∃ v, (sdoInfoList scriptWorld cfg listType (St.init ctr script stale)).1 = .ok v) ∨
+     (∃ e, (sdoInfoList scriptWorld cfg listType (St.init ctr script stale)).1 = .err e)) :=
+  ⟨(Res.noPanic_iff _).mp ((coe_total scriptWorld cfg (St.init ctr script stale)).1 fuel bufLen index access),
+   (Res.noPanic_iff _).mp ((coe_total scriptWorld cfg (St.init ctr script stale)).2.2.2.2.2.1 listType)⟩
 
-theorem scriptWorld_good (Pm : List Nat → Prop) : WGood (scriptInv Pm) scriptWorld := by
-  intro d req hd
-  cases d with
-  | nil => exact ⟨hd, fun m hm => by cases hm⟩
-  | cons e rest =>
-    exact ⟨fun e' he' => hd e' (List.mem_cons_of_mem _ he'), fun m hm => hd e List.mem_cons_self m hm⟩
-
-/-- **coe_total for sdo_read, scripted device.** For EVERY script of reply byte strings and every list of stale
-    messages (no exclusions): `sdo_read` of any destination size returns a value or an error. -/
-theorem coe_total_script_read (cfg : Cfg) (script : List (List (List Nat))) (stale : List (List Nat)) (ctr : Nat)
-    (fuel bufLen index : Nat) (access : SubIndex) :
-    (∃ v, (sdoRead scriptWorld cfg fuel bufLen index access (St.init ctr script stale)).1 = .ok v) ∨
-    (∃ e, (sdoRead scriptWorld cfg fuel bufLen index access (St.init ctr script stale)).1 = .err e) := by
-  apply (Res.noPanic_iff _).mp
-  exact (coe_total_partial scriptWorld cfg (scriptInv fun _ => True) (scriptWorld_good _) (St.init ctr script stale)
-    ⟨fun _ _ _ _ => trivial, fun _ _ => trivial⟩).1.1 fuel bufLen index access
-
-/-- The same for the SDO-information entry points and class P3/P4. -/
-theorem coe_total_partial_script_info (cfg : Cfg) (script : List (List (List Nat))) (stale : List (List Nat)) (ctr : Nat)
-    (h1 : ∀ e ∈ script, ∀ m ∈ e, InfoLenOk cfg m) (h2 : ∀ m ∈ stale, InfoLenOk cfg m) (listType : Nat) :
-    (∃ v, (sdoInfoList scriptWorld cfg listType (St.init ctr script stale)).1 = .ok v) ∨
-    (∃ e, (sdoInfoList scriptWorld cfg listType (St.init ctr script stale)).1 = .err e) := by
-  apply (Res.noPanic_iff _).mp
-  exact ((coe_total_partial scriptWorld cfg (scriptInv (InfoLenOk cfg)) (scriptWorld_good _) (St.init ctr script stale)
-    ⟨h1, h2⟩).2.2 (fun _ h => h)).1 listType
-
-/-! Witnesses: the full statement fails at each remaining site (`cfg32`: 32-byte mailboxes, checked build). -/
+/-! The former witnesses of the four panic sites (`cfg32`: 32-byte mailboxes, checked build): errors now. -/
 
 /-- An emergency message (service 1) as the answer to an upload request. -/
 def emergencyReply : List Nat := [0x0a, 0, 0, 0, 0, 0x63, 0, 0x10, 0x34, 0x12, 0x01, 1, 2, 3, 4, 5]
@@ -116,13 +94,12 @@ theorem coe_total_segment_length_fixed :
 /-- Get-OD-List response with mailbox length 4 (< 8) / 64 (more than the 32-byte mailbox holds). -/
 def infoLen (l : Nat) : List Nat := [l, 0, 0, 0, 0, 0x73, 0, 0x80, 0x02, 0, 0, 0, 1, 0, 0x00, 0x10, 0x18, 0x10]
 
-/-- P3/P4: `length as usize - 8` underflows (checked) or wraps into an out-of-range slice end (wrapping);
-    `response[..length]` panics in both profiles when the length field exceeds the data present. -/
-theorem coe_total_counterexample_info_length :
-    Res.isPanic (sdoInfoList scriptWorld cfg32 1 (St.init 1 [[infoLen 4]] [])).1 = true ∧
-    Res.isPanic (sdoInfoList scriptWorld { cfg32 with mode := .wrapping } 1 (St.init 1 [[infoLen 4]] [])).1 = true ∧
-    Res.isPanic (sdoInfoList scriptWorld cfg32 1 (St.init 1 [[infoLen 64]] [])).1 = true ∧
-    Res.isPanic (sdoInfoQuantities scriptWorld { cfg32 with mode := .wrapping } (St.init 1 [[infoLen 64]] [])).1 = true := by
+/-- P3/P4 repaired (fix-c16-sdo-info-length): a length field below 8 or beyond the data present is `Error::Internal`. -/
+theorem coe_total_info_length_fixed :
+    (sdoInfoList scriptWorld cfg32 1 (St.init 1 [[infoLen 4]] [])).1 = .err .internal ∧
+    (sdoInfoList scriptWorld { cfg32 with mode := .wrapping } 1 (St.init 1 [[infoLen 4]] [])).1 = .err .internal ∧
+    (sdoInfoList scriptWorld cfg32 1 (St.init 1 [[infoLen 64]] [])).1 = .err .internal ∧
+    (sdoInfoQuantities scriptWorld { cfg32 with mode := .wrapping } (St.init 1 [[infoLen 64]] [])).1 = .err .internal := by
   decide
 
 /-! ### reads_inside_reply -/
@@ -136,7 +113,7 @@ theorem reads_inside_reply {σ : Type} (w : World σ) (cfg : Cfg) (pre post : Li
     (∀ (ρ : Type) (u : List Nat → Res ρ) v (p : Pdu), p.start + p.len ≤ p.frame.length →
       triage cfg u v p = triageB u v p.bytes) ∧
     (∀ (p : Pdu) consumed buf, p.start + p.len ≤ p.frame.length →
-      infoStep cfg p consumed buf = infoStepB cfg.mode p.bytes consumed buf) ∧
+      infoStep cfg p consumed buf = infoStepB p.bytes consumed buf) ∧
     (∀ fuel bufLen index access s,
       sdoRead w (cfg.around pre post) fuel bufLen index access s = sdoRead w cfg fuel bufLen index access s) ∧
     (∀ index access s, sdoReadExpedited w (cfg.around pre post) index access s = sdoReadExpedited w cfg index access s) ∧
@@ -222,9 +199,7 @@ example : (sdoRead scriptWorld cfg32 4 4 0x2000 (.index 0)
     (St.init 1 [[[0x0a, 0, 0, 0, 0, 0x13, 0, 0x30, 0x43, 0x00, 0x20, 0x00, 0xde, 0xad, 0xbe, 0xef]]] [])).1 =
       .ok [0xde, 0xad, 0xbe, 0xef] := by decide
 
-/-- A well-formed two-fragment OD list is in class `InfoLenOk` and is assembled. -/
-example : InfoLenOk cfg32 (infoLen 12) := by constructor <;> decide
-
+/-- A well-formed OD list response is assembled. -/
 example : (sdoInfoList scriptWorld cfg32 1 (St.init 1 [[infoLen 12]] [])).1 = .ok (some [0x1000, 0x1018]) := by decide
 
 /-- A data-carrying fragment makes progress (hypothesis of `info_terminates_partial`) — checked on two buffers. -/
